@@ -51,6 +51,12 @@ class Contract(object):
                 name = k[len('ensures_'):]
                 self.ensures.append((name, v, tuple(props.get(name, default_props))))
         self.raises = dict(d.get('raises', {}))     # exception class name -> fn(params)->bool
+        # exc_ensures_<name>: clauses over the state left behind when a modelled callee raises
+        self.exc_ensures = []
+        for k, v in d.items():
+            if k.startswith('exc_ensures_') and callable(v):
+                name = k[len('exc_ensures_'):]
+                self.exc_ensures.append((name, v, tuple(props.get('exc_' + name, default_props))))
         self.loops = dict(d.get('loops', {}))       # ordinal -> dict(invariant=fn, decreases=fn)
         self.ghost = {}       # (stmt head text, occurrence|None, 'before'|'after') -> [ghost stmts]
         for key, v in dict(d.get('ghost', {})).items():
